@@ -212,16 +212,33 @@ fn cmd_traces(args: &[String]) -> i32 {
     let seed: u64 = arg_val(args, "--seed").and_then(|s| s.parse().ok()).unwrap_or(1);
     let runs: u64 = arg_val(args, "--runs").and_then(|s| s.parse().ok()).unwrap_or(100);
     let full = args.iter().any(|a| a == "--full");
+    let strip = args.iter().any(|a| a == "--strip-units");
+    let from: u64 = arg_val(args, "--from").and_then(|s| s.parse().ok()).unwrap_or(0);
+    if args.iter().any(|a| a == "--canon") {
+        vals::CANON.store(true, std::sync::atomic::Ordering::Relaxed);
+    }
     let Some(spec) = worlds::spec_for(&prop) else {
         eprintln!("harness error: no batch defined for property {:?}", prop);
         return 2;
     };
-    for idx in 0..runs {
+    for idx in from..from + runs {
         let mut rng = rng::Rng::for_run(seed, &prop, idx);
-        let plan = (spec.gen)(&prop, tier, &mut rng, seed, idx);
+        let mut plan = (spec.gen)(&prop, tier, &mut rng, seed, idx);
+        if strip {
+            // the well-dimensioned twin of an ill-dimensioned plan: explicit unit overrides removed
+            for op in plan.ops.iter_mut() {
+                if op.code == "S" && op.a.len() > 2 {
+                    op.a.truncate(2);
+                }
+                if op.code == "LQ" && op.a.len() > 3 {
+                    op.a.truncate(3);
+                }
+            }
+        }
+        let pow = plan.gets("kind").starts_with("ewma") || plan.gets("nodes").contains("exp.");
         let mut ctx = Ctx::new(full);
         worlds::execute(&plan, &mut ctx);
-        println!("RUN {} {:016x} v={}", idx, ctx.trace_hash, ctx.violations.len());
+        println!("RUN {} {:016x} v={} pow={} world={} ops={}", idx, ctx.trace_hash, ctx.violations.len(), pow as u8, plan.world, plan.ops.len());
         if full {
             for l in &ctx.trace_lines {
                 println!("  {}", l);
